@@ -46,7 +46,7 @@ def run(tier, replay=None):
     run = C.Run(PID, tier, "model_checking")
     cases = R.run_instances(run, "c05_" + tier, instances(tier), R.has_roll)
     # concurrent writers: traces of real threads validated against the specification
-    R.concurrent_traces(run, "c05", "size", 3, 80 if tier == "quick" else 2000)
+    R.concurrent_traces(run, "c05", "size", 3, 80 if tier == "quick" else 2000, long=80 if tier == "quick" else 600)
     R.concurrent_traces(run, "c05", "size", 1, 40 if tier == "quick" else 1000)
     if not run.mismatches and run.nontrivial < 50:
         raise C.ToolError("vacuous run: %d behaviours with a rotation" % run.nontrivial)
